@@ -50,19 +50,19 @@ PTS = PtsDim()
 class AnyShape(tuple):
     """Shape of a value whose (point/cell) axes are not materialised: every
     integer index is the marker PTS."""
-    def __new__(cls):
-        return super().__new__(cls, (PTS,))
+    def __new__(cls, n=1):
+        return super().__new__(cls, (PTS,) * n)
 
     def __getitem__(self, k):
         if isinstance(k, slice):
-            return AnyShape()
+            return AnyShape(len(self))
         return PTS
 
     def __radd__(self, o):
-        return tuple(o) + (PTS,)
+        return tuple(o) + tuple(self)
 
     def __add__(self, o):
-        return (PTS,) + tuple(o)
+        return tuple(self) + tuple(o)
 
 
 class Sqrt:
@@ -426,6 +426,8 @@ class Interp:
         self.call_hook = call_hook      # (interp, dotted, args, kw, node)
         self.depth = 0
         self.steps = 0
+        self.skipped_guards = []
+        self.trailing = 1       # number of unmaterialised trailing axes
 
     # ------------------------------------------------------------------
     def call(self, fn: FuncInfo, args: List[Any], kwargs: Dict[str, Any] = None,
@@ -506,8 +508,17 @@ class Interp:
             self.assign(st.target, v, env, module)
             return
         if isinstance(st, ast.If):
-            c = self.eval(st.test, env, module)
-            c = self.truth(c, st.test)
+            try:
+                c = self.eval(st.test, env, module)
+                c = self.truth(c, st.test)
+            except Unsupported:
+                # a value-dependent guard whose only effect is an error exit:
+                # the continuing path is what is analysed
+                if not st.orelse and all(isinstance(b, ast.Raise)
+                                         for b in st.body):
+                    self.skipped_guards.append(st)
+                    return
+                raise
             self.exec_block(st.body if c else st.orelse, env, module)
             return
         if isinstance(st, ast.For):
@@ -525,6 +536,19 @@ class Interp:
             if isinstance(st.value, ast.Constant):
                 return
             self.eval(st.value, env, module)
+            return
+        if isinstance(st, ast.Try):
+            try:
+                self.exec_block(st.body, env, module)
+            except Raised:
+                if not st.handlers:
+                    raise
+                self.exec_block(st.handlers[0].body, env, module)
+            else:
+                self.exec_block(st.orelse, env, module)
+            finally:
+                if st.finalbody:
+                    self.exec_block(st.finalbody, env, module)
             return
         if isinstance(st, ast.Raise):
             raise Raised(src(st))
@@ -825,7 +849,7 @@ class Interp:
         if isinstance(o, (Arr, SymArr)):
             if name == "shape":
                 if isinstance(o, Arr):
-                    return tuple(o.shape) + (PTS,)
+                    return tuple(o.shape) + (PTS,) * self.trailing
                 return o.shape
             if name == "T":
                 if isinstance(o, Arr):
@@ -835,7 +859,7 @@ class Interp:
         if isinstance(o, StoreArr) and name == "shape" and o.shape:
             return o.shape
         if is_scalar(o) and name == "shape":
-            return AnyShape()
+            return AnyShape(self.trailing)
         if is_scalar(o) and name == "T":
             return o
         if isinstance(o, dict) and name in ("get", "items", "keys", "values"):
@@ -962,6 +986,12 @@ class Interp:
                 # a run-time ndarray is exactly a value that depends on the
                 # point array: Poly/Rat/Arr here; Python numbers stay numbers
                 return isinstance(o, (Poly, Rat, Arr, SymArr, StoreArr))
+            if isinstance(t, Builtin) and t.name in ("tuple", "list"):
+                return isinstance(o, tuple if t.name == "tuple" else list)
+            if isinstance(t, ClassRef):
+                if isinstance(o, Obj) and o.cls is not None:
+                    return any(c is t.cls for c in o.cls.mro())
+                return False
             raise Unsupported("isinstance", node)
         if n == "hasattr":
             o, a = args
@@ -1100,7 +1130,91 @@ class Interp:
                     binop(s, binop(m, a[1], b[2]), binop(m, a[2], b[1])),
                     binop(s, binop(m, a[2], b[0]), binop(m, a[0], b[2])),
                     binop(s, binop(m, a[0], b[1]), binop(m, a[1], b[0]))])
+        if fn == "einsum":
+            return einsum(args[0], list(args[1:]), node)
+        if fn == "transpose" and isinstance(args[0], Arr) and len(args) == 1:
+            return args[0].transpose()
         raise Unsupported(f"numpy.{fn}", node)
+
+
+def einsum(sig, operands, node=None):
+    """numpy.einsum on dense arrays of scalars; a trailing '...' stands for
+    the point/cell axes, which are never materialised (pointwise)."""
+    from itertools import product as iproduct
+    if not isinstance(sig, str):
+        raise Unsupported("einsum signature is not a literal", node)
+    sig = sig.replace(" ", "")
+    if "->" in sig:
+        ins, out = sig.split("->")
+    else:
+        ins, out = sig, None
+    terms = ins.split(",")
+    if len(terms) != len(operands):
+        raise Unsupported("einsum arity", node)
+    clean = []
+    for t in terms:
+        if "..." in t:
+            if not t.endswith("..."):
+                raise Unsupported("einsum ellipsis not trailing", node)
+            t = t[:-3]
+        clean.append(t)
+    if out is None:
+        cnt = {}
+        for t in clean:
+            for ch in t:
+                cnt[ch] = cnt.get(ch, 0) + 1
+        out = "".join(sorted(ch for ch, n in cnt.items() if n == 1))
+    else:
+        if "..." in out:
+            if not out.startswith("...") and not out.endswith("..."):
+                raise Unsupported("einsum output ellipsis", node)
+            if out.startswith("...") and len(out) > 3:
+                raise Unsupported("einsum output with leading ellipsis",
+                                  node)
+            out = out.replace("...", "")
+    ext = {}
+    ops = []
+    for t, v in zip(clean, operands):
+        if is_scalar(v):
+            if t:
+                raise Unsupported("einsum: scalar operand with indices", node)
+            ops.append((t, v))
+            continue
+        if not isinstance(v, Arr):
+            raise Unsupported(f"einsum operand {type(v).__name__}", node)
+        sh = v.shape
+        if len(sh) != len(t):
+            raise Unsupported(f"einsum: operand rank {len(sh)} vs '{t}'",
+                              node)
+        for ch, n in zip(t, sh):
+            if ext.setdefault(ch, n) != n:
+                raise Unsupported("einsum: inconsistent extents", node)
+        ops.append((t, v))
+    for ch in out:
+        if ch not in ext:
+            raise Unsupported("einsum: unknown output index", node)
+    summed = [ch for ch in ext if ch not in out]
+    mul, add = ast.Mult(), ast.Add()
+
+    def entry(assign):
+        tot = 0
+        for vals in iproduct(*[range(ext[ch]) for ch in summed]):
+            a = dict(assign)
+            a.update(zip(summed, vals))
+            term = 1
+            for t, v in ops:
+                x = v if not t else v[tuple(a[ch] for ch in t)]
+                term = binop(mul, term, x, node)
+            tot = binop(add, tot, term, node)
+        return tot
+
+    def build(prefix, rest):
+        if not rest:
+            return entry(prefix)
+        ch = rest[0]
+        return [build({**prefix, ch: k}, rest[1:]) for k in range(ext[ch])]
+    r = build({}, list(out))
+    return Arr(r) if isinstance(r, list) else r
 
 
 def _store_nested(arr: Arr, ix, v):
